@@ -33,7 +33,12 @@ fn rejected_at(is_arp: bool, bytes: &[u8]) -> Result<Option<&'static str>, Failu
     };
     let rest = &bytes[20..];
     match ip.protocol {
-        17 => Ok(if guard(|| UdpHeader::from_bytes_ipv4(rest.iter().cloned(), rest.len(), ip.source, ip.destination))?.is_ok() { None } else { Some("udp") }),
+        17 => match guard(|| UdpHeader::from_bytes_ipv4(rest.iter().cloned(), rest.len(), ip.source, ip.destination))? {
+            Err(_) => Ok(Some("udp")),
+            // a datagram for the DHCP server port whose body the DHCP decoder rejects fails to decode at the DHCP layer
+            Ok(u) if u.destination == 67 && rest.len() >= 8 => Ok(if guard(|| elvis_core::protocols::dhcp::dhcp_parsing::DhcpMessage::from_bytes(rest[8..].iter().cloned()))?.is_ok() { None } else { Some("dhcp") }),
+            Ok(_) => Ok(None),
+        },
         6 => Ok(if guard(|| TcpHeader::from_bytes(rest.iter().cloned(), rest.len(), ip.source, ip.destination))?.is_ok() { None } else { Some("tcp") }),
         _ => Ok(None),
     }
@@ -98,7 +103,7 @@ impl Check for MalformedFrames {
         "C14.frames"
     }
     fn rule(&self) -> String {
-        "generated: a small client/server TCP stream transfer over the full stack (as in C02, loss-free) plus a UDP listener on the server, and 1..10 raw frames injected by a third machine while the transfer runs: IPv4+UDP datagrams to the listener, IPv4+TCP segments addressed to the live connection's endpoints (or other ports) and ARP packets, each derived from a valid packet by truncation at any length, mutation of 1..3 header bytes, an extreme length / data-offset / version field, and sent to the server's or client's MAC or as a link broadcast; a frame is injected if it is malformed by the RFC layout as judged by the harness alone (too short for its header, version/IHL/total length inconsistent, a fragment ending beyond 65535 bytes, a lone fragment whose other pieces never come, UDP length or TCP data offset pointing outside the segment, invalid ARP operation) or if the stack's own decoder for some layer (called directly by the harness) rejects it; oracle: no injected payload ever reaches the UDP listener, the concurrent TCP transfer completes byte-exact, the run ends with the normal status, no task panics. non-trivial: at least one injected frame passes the IPv4 decoder and is rejected by the UDP or TCP decoder, or is a rejected ARP packet. distinct: hash of decoded case".into()
+        "generated: a small client/server TCP stream transfer over the full stack (as in C02, loss-free) plus a UDP listener and a DHCP server on the server machine, and 1..10 raw frames injected by a third machine while the transfer runs: IPv4+UDP datagrams to the listener and to the DHCP server's port (bodies cut short, message type out of range, strings that are not UTF-8), IPv4+TCP segments addressed to the live connection's endpoints (or other ports) and ARP packets, each derived from a valid packet by truncation at any length, mutation of 1..3 header bytes, an extreme length / data-offset / version field, and sent to the server's or client's MAC or as a link broadcast; a frame is injected if it is malformed by the RFC layout as judged by the harness alone (too short for its header, version/IHL/total length inconsistent, a fragment ending beyond 65535 bytes, a lone fragment whose other pieces never come, UDP length or TCP data offset pointing outside the segment, invalid ARP operation) or if the stack's own decoder for some layer (called directly by the harness) rejects it; oracle: no injected payload ever reaches the UDP listener, the concurrent TCP transfer completes byte-exact, the run ends with the normal status, no task panics. non-trivial: at least one injected frame passes the IPv4 decoder and is rejected by the UDP or TCP decoder, or is a rejected ARP packet. distinct: hash of decoded case".into()
     }
     fn max_entropy(&self) -> usize {
         500
@@ -245,6 +250,15 @@ impl Check for MalformedFrames {
                 b.extend(u);
                 b
             };
+            let valid_dhcp: Vec<u8> = elvis_core::protocols::dhcp::dhcp_parsing::DhcpMessage::to_message(elvis_core::protocols::dhcp::dhcp_parsing::DhcpMessage::default()).map(|m| m.to_vec()).unwrap_or_else(|_| vec![0; 32]);
+            let dhcp = |body: &[u8]| -> Vec<u8> {
+                let mut b = ipv4_header([10, 1, 0, 77], server, 17, 8 + body.len());
+                b.extend_from_slice(&[0x00, 0x44, 0x00, 0x43]);
+                b.extend_from_slice(&((8 + body.len()) as u16).to_be_bytes());
+                b.extend_from_slice(&[0, 0]);
+                b.extend_from_slice(body);
+                b
+            };
             tags.push(vec![0xEE, 0x14, 0xFF, 0x77]);
             let to_server = e.bool();
             let classic: Vec<(bool, Vec<u8>)> = vec![
@@ -273,6 +287,14 @@ impl Check for MalformedFrames {
                     a
                 }),
                 (true, ArpPacket::new_request(2, Ipv4Address::new(client), Ipv4Address::new(server)).build()[..27].to_vec()),
+                // datagrams for the DHCP server (port 67) with a body the DHCP decoder rejects: cut short, message type
+                // out of range, a string that is not UTF-8
+                (false, dhcp(&valid_dhcp[..valid_dhcp.len().min(7)])),
+                (false, dhcp(&valid_dhcp[..valid_dhcp.len() - 1])),
+                (false, dhcp(&[])),
+                (false, { let mut d = valid_dhcp.clone(); d[28] = 0; dhcp(&d) }),
+                (false, { let mut d = valid_dhcp.clone(); d[28] = 9; dhcp(&d) }),
+                (false, { let mut d = valid_dhcp.clone(); if d.len() > 29 { d[29] = 0xff; } d.insert(29, 0xfe); dhcp(&d) }),
                 // fragments: a piece that ends beyond 65535 ("ping of death"), lone first / middle / last pieces, and
                 // total-length fields that lie about the frame (longer, shorter, maximal)
                 (false, { let mut b = udp(16, 16); b[6] = 0x1f; b[7] = 0xff; b[2] = 0xff; b[3] = 0xff; b }),
@@ -327,6 +349,7 @@ impl Check for MalformedFrames {
                 "udp" => "rejected_at_udp",
                 "tcp" => "rejected_at_tcp",
                 "fragment" => "lone_fragment",
+                "dhcp" => "rejected_at_dhcp",
                 _ => "rejected_at_arp",
             });
         }
